@@ -1126,3 +1126,36 @@ def failure_request_ids_rule(chk: Check, rule: str) -> None:
             chk.ok(rule, ffd, construct, sorted(case_ids & other)[0], ffd.loc(fdc[0]))
         else:
             chk.violation(rule, ffd, construct, f"the case is looked up under `{sorted(case_ids)[0]}` but the recorded exchange under `{sorted(other)[0]}`: {why}", ffd.loc(fdc[0]))
+
+
+# ------------------------------------------------------------------------------------------------- constructors store under own names
+def init_stores_rule(chk: Check, rule: str, relpaths: tuple[str, ...], what: str, floor: int) -> None:
+    """Hand-written `__init__`s / classmethod constructors of record classes: `self.<field> = <parameter>` stores every
+    parameter in the field of ITS name (no crossing, none dropped)."""
+    chk.rule(rule, f"STORE-FORWARDING({what}): a hand-written `__init__` of a record class stores each parameter in the field of its own name - `self.a = b` with two different parameter / field names crosses two labels, a parameter that is never stored drops one", floor=floor)
+    P = chk.project
+    n = 0
+    for rel in relpaths:
+        for fn in P.module(rel).functions.values():
+            if fn.name != "__init__" or fn.cls is None:
+                continue
+            ps = [p for p in params_of(fn.node) if p != "self"]
+            stored: set[str] = set()
+            for a in walk_body(fn.node):
+                if isinstance(a, ast.Assign) and len(a.targets) == 1 and isinstance(a.targets[0], ast.Attribute) and unparse(a.targets[0].value) == "self" and isinstance(a.value, ast.Name) and a.value.id in ps:
+                    n += 1
+                    stored.add(a.value.id)
+                    construct = f"{fn.qualname.partition(':')[2]}: `{unparse(a)}`"
+                    if a.targets[0].attr == a.value.id or a.targets[0].attr.lstrip("_") == a.value.id:
+                        chk.ok(rule, fn, construct, "", fn.loc(a))
+                    elif a.targets[0].attr in ps:
+                        chk.violation(rule, fn, construct, f"parameter `{a.value.id}` is stored in the field named after another parameter (`{a.targets[0].attr}`): two pieces of the record are crossed", fn.loc(a))
+                    else:
+                        chk.ok(rule, fn, construct, "renamed field", fn.loc(a))
+            body_names = {x.id for x in ast.walk(fn.node) if isinstance(x, ast.Name)}
+            for p_ in ps:
+                if p_ not in body_names:
+                    n += 1
+                    chk.violation(rule, fn, f"{fn.qualname.partition(':')[2]}: parameter `{p_}` is used", f"`{p_}` is accepted and never stored or read: that part of the record is lost", fn.loc())
+    if n < floor:
+        chk.undecided(rule, "<discovery>", f"sites={n}", "fewer constructor stores than confirmed by hand")
